@@ -83,9 +83,13 @@ def run_net(case, res, log):
     net_cfg = case["net"]
     msgs, info, truncated = c13.make_messages(case)
     outs = {}
-    for world in ("sync", "async"):
+    worlds = ["sync", "async"] + (["trio"] if netsim.have_trio() else [])
+    for world in worlds:
         if case.get("world") not in (None, world):
             continue
+        if world == "trio":
+            netsim.install_trio_seam()
+            res.probes.inc("trio_backend_transfer")
         b = Z.Bench(case["kind"], case["relativize"])
         start_model = c13.secondary_at(b, versions, case["k"])
         base_serial = versions[case["k"]][0]
@@ -149,12 +153,12 @@ def run_net(case, res, log):
             if world == "sync":
                 dns.query.inbound_xfr("10.0.0.1", b.zone, q, timeout=net_cfg["timeout"], lifetime=net_cfg["lifetime"], udp_mode=udp_mode)
             else:
-                backend = dns.asyncbackend.get_backend("asyncio")
+                backend = dns.asyncbackend.get_backend("trio" if world == "trio" else "asyncio")
 
                 async def go():
                     await dns.asyncquery.inbound_xfr("10.0.0.1", b.zone, q, timeout=net_cfg["timeout"], lifetime=net_cfg["lifetime"], udp_mode=udp_mode, backend=backend)
 
-                _, exc = netsim.run_async(go, net)
+                _, exc = (netsim.run_trio if world == "trio" else netsim.run_async)(go, net)
         except SimBusyWait:
             raise
         except Exception as e:  # noqa: BLE001
@@ -168,6 +172,8 @@ def run_net(case, res, log):
             raise Violation("C13:error-after-applied", f"{tag}: {type(exc).__name__}({exc}) was raised but the zone content changed (reference verdict {verdict[0]} {verdict[1] if verdict[0] == 'reject' else ''})")
         if b.kind != "plain" and b.zone._write_txn is not None:
             raise Violation("C13:write-txn-left-open", f"{tag}: a write transaction is still open after inbound_xfr returned/raised")
+        if world == "trio" and type(exc).__name__ == "BrokenResourceError" and isinstance(exc.__cause__, OSError):
+            exc = exc.__cause__  # trio.SocketStream's documented translation of a socket error
         if exc is not None and not isinstance(exc, (dns.exception.DNSException, EOFError, OSError, KeyError, ValueError)):
             raise Violation("C13:unexpected-exception", f"{tag}: {type(exc).__name__}: {exc}")
         if exc is None:
@@ -198,8 +204,9 @@ def run_net(case, res, log):
         outs[world] = ("exc", type(exc).__name__) if exc is not None else ("ok", Z.stable_hash(after))
         log.add(world, outs[world], transport, f, info["fired"], verdict[0])
         res.sim_seconds += VT.elapsed()
-    if len(outs) == 2 and outs["sync"] != outs["async"]:
-        raise Violation("C13:sync-async-differ", f"net: sync {outs['sync']} async {outs['async']} style={style} transport={case['transport']} netfault={net_cfg['fault']} streamfault={info['fired']}")
+    for other in [w for w in worlds[1:] if w in outs and "sync" in outs]:
+        if outs["sync"] != outs[other]:
+            raise Violation("C13:sync-async-differ", f"net: sync {outs['sync']} {other} {outs[other]} style={style} transport={case['transport']} netfault={net_cfg['fault']} streamfault={info['fired']}")
     res.probes.inc("net_tier_runs")
     if net_cfg["fault"] != "none":
         res.faults.inc("net_" + net_cfg["fault"])
